@@ -1,1 +1,108 @@
-From CMinx Require Import Base.Str.
+(* Properties/C12.v -- Title and module name derive from prefix and relative path, or @module.
+   Only theorem statements; proofs are in Proofs/NamingFacts.v, AggInv.v, PageFacts.v. *)
+From Coq Require Import String List NArith.
+From CMinx Require Import Base.Str Model.Lexer Model.Parser Model.Writer Model.DocTypes Model.Aggregator
+     Model.Pipeline Model.Path Model.Naming Gen.SourceLiterals
+     Proofs.NamingFacts Proofs.AggInv Proofs.LiteralsMatch.
+Import ListNotations.
+
+(* the page: title frame (first header character repeated to exactly the title's length), then
+   the module directive, then the entries *)
+Theorem C12_page_head :
+  forall hdrs title m docs t n d rest,
+    finalize title m docs = (t, EModule n d :: rest) ->
+    render_page hdrs title m docs
+    = heading_text (nth 0 hdrs []) t ++ [nl]
+      ++ elem_text hdrs 0 0 (render_entry (EModule n d)) ++ [nl]
+      ++ body_text hdrs 0 0 (map render_entry rest).
+Proof. exact page_head. Qed.
+Print Assumptions C12_page_head.
+
+Theorem C12_heading_frame :
+  forall c t,
+    heading_text [c] t = [nl] ++ repeat c (length t) ++ [nl] ++ t ++ [nl] ++ repeat c (length t).
+Proof. exact heading_text_single. Qed.
+Print Assumptions C12_heading_frame.
+
+(* exactly one module entry, the first: the aggregator never creates another one *)
+Theorem C12_module_only_first :
+  forall trigger strip_fn strip_mac strip_mem fl f st,
+    aggregate fl trigger strip_fn strip_mac strip_mem f = Ok st ->
+    (f_module f = None -> no_module (documented st) = true)
+    /\ (forall t, f_module f = Some t ->
+          exists rest, documented st = module_entry t :: rest /\ no_module rest = true).
+Proof. exact module_only_first. Qed.
+Print Assumptions C12_module_only_first.
+
+(* names: prefix + separator + relative name, extension dropped iff the respective flag is off *)
+Theorem C12_names_from_prefix :
+  forall (p sep : str) (et em : bool) (stem : str),
+    str_eqb (stem ++ cmake_ext) sep = false ->
+    header_and_module (Some p) sep et em (stem ++ cmake_ext)
+    = (p ++ sep ++ stem ++ (if et then cmake_ext else []),
+       p ++ sep ++ stem ++ (if em then cmake_ext else [])).
+Proof. exact names_from_prefix. Qed.
+Print Assumptions C12_names_from_prefix.
+
+Theorem C12_names_without_prefix :
+  forall (sep : str) (et em : bool) (stem : str),
+    header_and_module None sep et em (stem ++ cmake_ext)
+    = (stem ++ (if et then cmake_ext else []), stem ++ (if em then cmake_ext else [])).
+Proof. exact names_without_prefix. Qed.
+Print Assumptions C12_names_without_prefix.
+
+Theorem C12_names_start_with_prefix :
+  forall (p sep : str) (et em : bool) (stem : str),
+    str_eqb (stem ++ cmake_ext) sep = false ->
+    startswith (p ++ sep) (fst (header_and_module (Some p) sep et em (stem ++ cmake_ext))) = true
+    /\ startswith (p ++ sep) (snd (header_and_module (Some p) sep et em (stem ++ cmake_ext))) = true.
+Proof. exact names_start_with_prefix. Qed.
+Print Assumptions C12_names_start_with_prefix.
+
+(* different files get different names *)
+Theorem C12_names_injective :
+  forall (pfx : option str) (sep : str) (et em : bool) (s1 s2 : str),
+    str_eqb (s1 ++ cmake_ext) sep = false -> str_eqb (s2 ++ cmake_ext) sep = false ->
+    header_and_module pfx sep et em (s1 ++ cmake_ext)
+    = header_and_module pfx sep et em (s2 ++ cmake_ext) ->
+    s1 ++ cmake_ext = s2 ++ cmake_ext.
+Proof. exact names_injective. Qed.
+Print Assumptions C12_names_injective.
+
+(* ... for names ending in the lower-case extension: mixed-case extensions can collide (F16) *)
+Theorem C12_case_collision_refuted :
+  ltac:(let t := type of F16_case_collision_refuted in exact t).
+Proof. exact F16_case_collision_refuted. Qed.
+Print Assumptions C12_case_collision_refuted.
+
+(* the relative name does not depend on where the tree is located *)
+Theorem C12_relpath_abs_child :
+  forall bc rel, forallb comp_ok bc = true -> forallb comp_ok rel = true -> rel <> [] ->
+    relpath_abs (abs_of bc ++ [slash] ++ join [slash] rel) (abs_of bc) = join [slash] rel.
+Proof. exact relpath_abs_child. Qed.
+Print Assumptions C12_relpath_abs_child.
+
+(* @module <name>: the name is both title and module name, the text is the directive's content *)
+Theorem C12_finalize_spec :
+  forall title m docs,
+    finalize title m docs
+    = match docs with
+      | EModule name doc :: rest =>
+          if str_eqb name [] then (title, EModule m doc :: rest) else (name, EModule name doc :: rest)
+      | _ => (title, EModule m [] :: docs)
+      end.
+Proof. exact finalize_spec. Qed.
+Print Assumptions C12_finalize_spec.
+
+Theorem C12_render_module_entry :
+  forall n doc, doc <> [] -> render_entry (EModule n doc) = Dir (s"module") [n] [] [Para doc].
+Proof. exact render_module_entry. Qed.
+Print Assumptions C12_render_module_entry.
+
+Theorem C12_source_literals_pinned :
+  get (s"document_single_file") init_strings
+  = [s"\.cmake$"; []; s"\.cmake$"; []; [dot]; [dot]; s".rst"; [dot]; [dot]; s".rst"; [nl]]
+  /\ get (s"DocumentationAggregator.enterDocumented_module") aggregator_strings
+  = [[nl]; [nl]; module_kw; []; [nl]].
+Proof. exact (conj document_single_file_literals module_doc_literals). Qed.
+Print Assumptions C12_source_literals_pinned.
